@@ -960,12 +960,56 @@ var c17GlobalCfg = c17GenCfg{
 	resets: []string{"all", "counter", "rate", "mean", "bucket", "key"},
 }
 
+// ---- write-ahead journal -----------------------------------------------------------------------------------
+
+// A fatal runtime error in the code under test ("concurrent map writes", a deadlock reported by the test timeout)
+// kills the process on a worker goroutine: no recover, no deferred call, rapid never sees it. Each case is
+// therefore written (one pwrite + truncate on an open file) in replay-file format before it runs, under a name the
+// driver picks up as this shard's failing case if the process dies, and removed when the test function returns.
+var c17Jr struct {
+	facet string
+	path  string
+	f     *os.File
+}
+
+func c17Journal(facet, caseJSON string) {
+	dir := os.Getenv("VERIF_FAIL_DIR")
+	if dir == "" || veriflib.Replaying() {
+		return
+	}
+	if c17Jr.f == nil || c17Jr.facet != facet {
+		c17JournalDone()
+		os.MkdirAll(dir, 0o755)
+		san := strings.NewReplacer("/", "_").Replace(facet)
+		c17Jr.path = dir + "/fail-" + san + "_inflight-" + os.Getenv("VERIF_SHARD") + ".json"
+		f, err := os.Create(c17Jr.path)
+		if err != nil {
+			return
+		}
+		c17Jr.f, c17Jr.facet = f, facet
+	}
+	b := []byte(`{"property":"C17","facet":"` + facet + `","message":"the test process died (fatal error in the code under test, or test timeout) while this case was executing; see output_tail","seed":"` +
+		os.Getenv("VERIF_SEED") + `","case":` + caseJSON + "}")
+	c17Jr.f.WriteAt(b, 0)
+	c17Jr.f.Truncate(int64(len(b)))
+}
+
+func c17JournalDone() {
+	if c17Jr.f != nil {
+		c17Jr.f.Close()
+		os.Remove(c17Jr.path)
+		c17Jr.f = nil
+	}
+}
+
 // ---- facet C17/burst ------------------------------------------------------------------------------------
 
 func propC17Burst(t veriflib.TB, c c17Case) {
+	key := veriflib.JSON(c)
+	c17Journal("C17/burst", key)
 	c17RunCase(t, "C17/burst", newC17Local(), c17LocalObjs, newC17Model(), c)
 	nt, cl := c17Shape(c)
-	veriflib.Record("C17/burst", veriflib.JSON(c), nt, cl, func() any { return c17Sample(c) })
+	veriflib.Record("C17/burst", key, nt, cl, func() any { return c17Sample(c) })
 }
 
 // c17Sample keeps evidence samples small: the case itself when short, else its shape.
@@ -999,6 +1043,7 @@ func c17ReplayRepeat() int { return veriflib.N("C17_REPLAY_REPEAT", 3000, 3000) 
 
 func TestVerif_C17_Burst(t *testing.T) {
 	defer veriflib.Flush()
+	defer c17JournalDone()
 	var rc c17Case
 	if veriflib.ReplayCase("C17/burst", &rc) {
 		for i := 0; i < c17ReplayRepeat(); i++ {
@@ -1075,6 +1120,8 @@ func propC17Global(t veriflib.TB, c c17Case) {
 	if err := Init(); err != nil && err != ErrStatsAlreadyInitialized {
 		t.Fatalf("stats.Init: %v", err)
 	}
+	key := veriflib.JSON(c)
+	c17Journal("C17/global", key)
 	s := c17Global{}
 	// isolate the case: Reset() at quiescence, then take the lifetime totals (which Reset leaves) as the baseline
 	Reset()
@@ -1098,11 +1145,12 @@ func propC17Global(t veriflib.TB, c c17Case) {
 	} else {
 		cl = append(cl, "end:live-workers")
 	}
-	veriflib.Record("C17/global", veriflib.JSON(c), nt, cl, func() any { return c17Sample(c) })
+	veriflib.Record("C17/global", key, nt, cl, func() any { return c17Sample(c) })
 }
 
 func TestVerif_C17_Global(t *testing.T) {
 	defer veriflib.Flush()
+	defer c17JournalDone()
 	var rc c17Case
 	if veriflib.ReplayCase("C17/global", &rc) {
 		for i := 0; i < c17ReplayRepeat(); i++ {
@@ -1362,6 +1410,8 @@ func propC17Linearizable(t veriflib.TB, c c17Case) {
 	if !ok {
 		t.Fatalf("bad case: object %q", c.Obj)
 	}
+	key := veriflib.JSON(c)
+	c17Journal(facet, key)
 	s := newC17Local()
 	var clk atomic.Int64
 	var hist []c17Ev
@@ -1452,11 +1502,12 @@ func propC17Linearizable(t veriflib.TB, c c17Case) {
 			veriflib.Fail(t, "C17", facet, c, hist, "history of %d operations on the %s is not linearizable w.r.t. the sequential specification", len(ops), c.Obj)
 		}
 	}
-	veriflib.Record(facet, veriflib.JSON(c), nt, cl, func() any { return c })
+	veriflib.Record(facet, key, nt, cl, func() any { return c })
 }
 
 func TestVerif_C17_Linearizable(t *testing.T) {
 	defer veriflib.Flush()
+	defer c17JournalDone()
 	var rc c17Case
 	if veriflib.ReplayCase("C17/linearizable", &rc) {
 		for i := 0; i < c17ReplayRepeat(); i++ {
